@@ -129,6 +129,29 @@ func NewRun(s *Spec, m *Model, faults []rt.Fault, closeFaults []rt.CloseFault) *
 				defer func() { _ = recover() }()
 				r.Rec.NoLog = true
 				if p, err := r.Coll.Build(); err == nil && p != nil {
+					// use the intermediate provider like an application would: one scope, every
+					// registered identity resolved once (so whatever godi remembers per
+					// constructor / parameter object / descriptor has been exercised against a
+					// registry that is about to change), then everything closed
+					func() {
+						defer func() { _ = recover() }()
+						if sc, serr := p.CreateScope(nil); serr == nil && sc != nil {
+							for _, d := range r.Coll.ToSlice() {
+								if d == nil || d.Type == nil {
+									continue
+								}
+								switch {
+								case d.Group != "":
+									_, _ = sc.GetGroup(d.Type, d.Group)
+								case d.Key != nil:
+									_, _ = sc.GetKeyed(d.Type, d.Key)
+								default:
+									_, _ = sc.Get(d.Type)
+								}
+							}
+							_ = sc.Close()
+						}
+					}()
 					_ = p.Close()
 				}
 			}()
